@@ -36,6 +36,8 @@ def run_c14(it):
             opts["penalty"] = it["set"]["pen"] / S
         if any(it["set"]["psi"]):
             opts["psi"] = tuple(it["set"]["psi"])
+        if it["set"]["inner"] == "eu":
+            opts["inner_dist"] = "euclidean"
         kwargs = {}
         if it["set"]["md"]:
             md = dtwx.max_dist_user(dict(c, md=it["set"]["md"]))
